@@ -278,7 +278,8 @@ def r2(ctx, R):
     for f, c in constructions(ctx):
         st = ctx.m.enclosing_stmt(c)
         names = set()
-        if isinstance(st, ast.Assign) and isinstance(st.targets[0], ast.Name):
+        if isinstance(st, ast.Assign) and isinstance(st.targets[0], ast.Name) and st.value is c:
+            # (a construction nested in a comprehension/display binds a *sequence*, not one diagnostic)
             names.add(st.targets[0].id)
         for r in (n for n in ctx.m.walk_own(f.node) if isinstance(n, ast.Return) and n.value is not None):
             vals = r.value.elts if isinstance(r.value, ast.Tuple) else [r.value]
